@@ -35,7 +35,7 @@ NOT_APPLICABLE = [
 ]
 
 # commits in /repo that add the guarded hooks (build tag verif)
-HOOK_COMMITS = []
+HOOK_COMMITS = ["902e845", "5602316"]
 
 
 def ENGINE_OF(pid, part=None):
